@@ -297,6 +297,16 @@ func (c *Client) validateVirtualChannelFundingProposal(
 	if len(prop.Initial.Params.Parts) != len(prop.IndexMap) {
 		return errors.New("index map: invalid length")
 	}
+	// Every participant of the virtual channel must be mapped to a different
+	// participant of the parent channel. Otherwise balances mapped to the same
+	// index would overwrite each other below.
+	mapped := make(map[channel.Index]struct{}, len(prop.IndexMap))
+	for i, p := range prop.IndexMap {
+		if _, ok := mapped[p]; ok {
+			return errors.Errorf("index map: duplicate entry %d: %d", i, p)
+		}
+		mapped[p] = struct{}{}
+	}
 
 	// Assert not contained before
 	_, containedBefore := ch.state().SubAlloc(prop.Initial.Params.ID())
